@@ -161,7 +161,7 @@ def par_case(name, sc, seed, n_jobs, backend, variant):
             u = np.asarray(u, dtype=float)
             obs.append((which, u[0], int(np.asarray(q)[0])))
         finite = [abs(v) for o in obs for v in o[1] if np.isfinite(v)]
-        scale = max(max(finite), 1e-9) if finite else 1.0
+        scale = max(max(finite), 1e-6) if finite else 1.0
         for which, row, sel in obs:
             events.append({"ev": "Obs", "name": which, "vals": [[j + 1, _enc(v, scale)] for j, v in enumerate(row)],
                            "sel": sel + 1, "samekeys": True, "cmpsel": True})
